@@ -103,14 +103,19 @@ theorem sp_handleMsgs (ms : List Msg) (e : Ep) (hq : QInv e) (hs : SP e) :
     unfold handleMsgs
     split
     · exact ⟨hs, hq⟩
-    · exact ih _ (q_handleMsg e m hq).1 (sp_handleMsg e m hq hs)
+    · have hq' : QInv { e with rxMore := !ms.isEmpty || e.rx.dead } := QInv.of_qv (e := e) rfl hq
+      have hs' : SP { e with rxMore := !ms.isEmpty || e.rx.dead } := ⟨hs.succ, hs.pos, hs.mapPos⟩
+      exact ih _ (q_handleMsg _ m hq').1 (sp_handleMsg _ m hq' hs')
 
 theorem sp_recvRaw (e : Ep) (c : Bytes) (hq : QInv e) (hs : SP e) : SP (recvRaw e c).1 := by
   unfold recvRaw
   simp only []
   have hq0 : QInv (rxEntry e c) := QInv.of_qv (e := e) rfl hq
   have hs0 : SP (rxEntry e c) := ⟨hs.succ, hs.pos, hs.mapPos⟩
-  obtain ⟨h1, h2⟩ := sp_handleMsgs (feed e.rx c).2 _ hq0 hs0
+  obtain ⟨h1', h2'⟩ := sp_handleMsgs (feed e.rx c).2 _ hq0 hs0
+  have h1 : SP { (handleMsgs (rxEntry e c) (feed e.rx c).2).1 with rxMore := false } := ⟨h1'.succ, h1'.pos, h1'.mapPos⟩
+  have h2 : QInv { (handleMsgs (rxEntry e c) (feed e.rx c).2).1 with rxMore := false } :=
+    QInv.of_qv (e := (handleMsgs (rxEntry e c) (feed e.rx c).2).1) rfl h2'
   split
   · show SP (doClose _).1
     exact h1.of_rel (q_doClose _ h2).2.1 (by simp)
